@@ -35,10 +35,13 @@ Check C02_scan_eq_rule : forall bef t sold aft st r,
   end.
 Print Assumptions C02_scan_eq_rule.
 
-(* Without a user-supplied value: the loss is superficial exactly when the
-   rule says so; the ratio is min(sold, acquired, held)/sold and the denied
-   amount is the loss times that ratio (snapped to the cent when within
-   1e-10 of one: eff_cent_val). *)
+(* Without a user-supplied value: the ratio is min(sold, acquired, held)/sold
+   and the denied amount is the loss times that ratio (snapped to the cent
+   when within 1e-10 of one: eff_cent_val).  The sale carries a superficial
+   loss exactly when the rule says so AND that denied amount is not zero
+   (since the fix "treat a superficial loss that rounds to zero effective
+   cents as no superficial loss": before it, such a run ended in a panic and
+   the None case read [~ rule_superficial bef t aft all0]). *)
 Theorem C02_denied_amount : forall bef t sold aft st loss r,
   sd_sorted aft -> sd_sorted_desc bef ->
   delta_sfl exact bef t sold None aft st loss = Ok r ->
@@ -48,8 +51,11 @@ Theorem C02_denied_amount : forall bef t sold aft st loss r,
       rule_superficial bef t aft all0 /\
       sf_num info = Qcmin sold (Qcmin (rule_acquired bef t aft) (rule_held_end all0 t aft)) /\
       sf_den info = sold /\
-      sf_amount info = eff_cent_val (loss * (sf_num info / sold))
-  | None => ~ rule_superficial bef t aft all0
+      sf_amount info = eff_cent_val (loss * (sf_num info / sold)) /\
+      (sf_amount info < 0)%Qc
+  | None =>
+      rule_superficial bef t aft all0 ->
+      eff_cent_val (loss * rule_ratio sold (rule_acquired bef t aft) (rule_held_end all0 t aft)) = 0%Qc
   end.
 Proof. exact C02Scan.delta_sfl_auto_rule. Qed.
 Check C02_denied_amount : forall bef t sold aft st loss r,
@@ -61,8 +67,11 @@ Check C02_denied_amount : forall bef t sold aft st loss r,
       rule_superficial bef t aft all0 /\
       sf_num info = Qcmin sold (Qcmin (rule_acquired bef t aft) (rule_held_end all0 t aft)) /\
       sf_den info = sold /\
-      sf_amount info = eff_cent_val (loss * (sf_num info / sold))
-  | None => ~ rule_superficial bef t aft all0
+      sf_amount info = eff_cent_val (loss * (sf_num info / sold)) /\
+      (sf_amount info < 0)%Qc
+  | None =>
+      rule_superficial bef t aft all0 ->
+      eff_cent_val (loss * rule_ratio sold (rule_acquired bef t aft) (rule_held_end all0 t aft)) = 0%Qc
   end.
 Print Assumptions C02_denied_amount.
 
